@@ -106,6 +106,13 @@ func (r *RequestContext) Body() any {
 		body := buf.Bytes()
 		r.req.Body = io.NopCloser(bytes.NewReader(body))
 
+		// e.g. if sent using chunked encoding, an empty body is not recognized above
+		if len(body) == 0 {
+			r.savedBody = ""
+
+			return r.savedBody
+		}
+
 		decoder, err := contenttype.NewDecoder(r.Header("Content-Type"))
 		if err != nil {
 			r.savedBody = string(body)
